@@ -6,17 +6,19 @@
 (*                                                                          *)
 (* SeededInit starts from a small committed history (what `jj new` leaves): *)
 (*   1 root <- 2 <- 3 <- 4(empty, undescribed: working copy of w1),         *)
-(*   bookmark b1 at 3, workspace w2 absent                                  *)
+(*   bookmark b1 at 3, workspace w2 absent, and a HIDDEN commit 5 on 3      *)
+(*   (created and abandoned by the seeding operation: known to the index,   *)
+(*   not visible) so that "new commit on a hidden parent" is one step away  *)
 (* so that the bounded exploration spends its depth on rewrites,            *)
 (* concurrency and reconciliation instead of on building a history.         *)
 EXTENDS Repo
 
 SeedView == [heads |-> {4}, bm |-> <<<<3>>, <<Absent>>>>, wc |-> <<4, 0>>]
 SeededInit ==
-  /\ par = <<<<>>, <<1>>, <<2>>, <<3>>>> /\ chg = <<0, 1, 2, 3>> /\ dsc = <<0, 1, 2, 0>>
-  /\ emp = <<TRUE, FALSE, FALSE, TRUE>>
+  /\ par = <<<<>>, <<1>>, <<2>>, <<3>>, <<3>>>> /\ chg = <<0, 1, 2, 3, 4>> /\ dsc = <<0, 1, 2, 0, 3>>
+  /\ emp = <<TRUE, FALSE, FALSE, TRUE, FALSE>>
   /\ ops = <<[parents |-> <<>>, view |-> RootView, preds |-> <<>>],
-             [parents |-> <<1>>, view |-> SeedView, preds |-> (2 :> <<>>) @@ (3 :> <<>>) @@ (4 :> <<>>)]>>
+             [parents |-> <<1>>, view |-> SeedView, preds |-> (2 :> <<>>) @@ (3 :> <<>>) @@ (4 :> <<>>) @@ (5 :> <<>>)]>>
   /\ opHeads = {2} /\ tx = NoTx /\ aux = NoAux
 SeededSpec == SeededInit /\ [][Next]_vars
 
